@@ -2322,6 +2322,53 @@ def replace_self_propagates_result(repo, run, rule):
         run.ok(rule, fi, '_replace_self re-propagates inherited flags on the node it returns (3 rows)')
 
 
+def map_nodes_memo(repo, run, rule):
+    """ComposedNode.ayns.map_nodes evaluated on a container that holds the SAME child node under two names (a YAML alias) next to another
+    child: the mapping function - the step that pre-processes / transforms a node - runs once per node object, both names receive the
+    one result, and with cache_results=False it runs once per name"""
+    mn = repo.func('ComposedNode.ayns.map_nodes')
+    bad = []
+    for cached in (True, False):
+        shared = node_obj('shared', 'ConfigNode')
+        other = node_obj('single', 'ConfigNode')
+        me = node_obj('cont', 'ConfigDict', _children={'a': shared, 'b': other, 'c': shared})
+        log = []
+
+        def mapper(path, child, log=log):
+            log.append(('map', child.name))
+            return node_obj('new_%s_%d' % (child.name, len(log)), 'ConfigNode')
+        mapper._fde_ok = True
+
+        def stub(name, recv, args, kwargs, log=log, me=me):
+            if name == 'named_children':
+                return list(me.f['_children'].items())
+            if name == 'get_list_path':
+                return ['root']
+            if name == 'persistent_id':
+                return id(args[0]) if args else id(recv)
+            if name == 'set_child':
+                log.append(('set', args[0], getattr(args[1], 'name', args[1])))
+                return args[1]
+            return recv
+        f = FDE(repo, stubs={'named_children', 'set_child', 'get_list_path', 'persistent_id'}, stub=stub)
+        r = fde_guard(lambda: f.call(mn, me, mapper, cache_results=cached))
+        maps = [x[1] for x in log if x[0] == 'map']
+        sets = {x[1]: x[2] for x in log if x[0] == 'set'}
+        what = 'map_nodes(cache_results=%r) over {a: X, b: Y, c: X}' % cached
+        if r.raised:
+            bad.append('%s raises %s' % (what, r.raised))
+        elif cached and (maps.count('shared') != 1 or maps.count('single') != 1):
+            bad.append('%s: the node held under two names is processed %d times (the memo is filled under another key than the one it is looked up by)' % (what, maps.count('shared')))
+        elif cached and (sets.get('a') is None or sets.get('a') != sets.get('c')):
+            bad.append('%s: the two names of one node receive different results (%s / %s)' % (what, sets.get('a'), sets.get('c')))
+        elif not cached and maps.count('shared') != 2:
+            bad.append('%s: expected one call per name, got %s' % (what, maps))
+    if bad:
+        run.violation(rule, mn, 'map_nodes memo', '; '.join(bad[:2]))
+    else:
+        run.ok(rule, mn, 'map_nodes: a node reached under two names is processed once and both names get the one result (2 rows)')
+
+
 def tag_spec(repo, run, rule, tags):
     """the constructor registered for each of the given tags builds the node class the tag stands for, with the documented data
     handling (which argument receives the YAML value, whether scalars are parsed, whether a mapping is the data or the arguments) - and
@@ -2870,10 +2917,37 @@ def partial_child_getitem(repo, run, rule):
                     bad.append('%s: expected the stored value, got %r (evaluations: %s)' % (what, r.ret, evs))
                 if strict and gets != [('get_node', 'ctx', (('a', 'k'),))]:
                     bad.append('%s: the source of the stored value is not re-checked (get_node calls: %s)' % (what, gets))
+    # get_or_set: the holder of the partial results of a container that is being evaluated is registered under the key and carries
+    # the container's own path (parent path + [key]), the context and the container's config node
+    q2 = 'EvalContext.PartialChild.get_or_set'
+    if q2 in repo.functions:
+        made, sets = [], []
+
+        def mk(*a, **k):
+            made.append((tuple(tuple(x) if isinstance(x, list) else getattr(x, 'name', x) for x in a), dict(k)))
+            return Obj('holder', 'EvalContext.PartialChild')
+
+        def stub2(name, recv, a, k):
+            sets.append((name, getattr(recv, 'name', None), tuple(getattr(x, 'name', x) for x in a)))
+            return a[1] if name == 'setdefault' and len(a) > 1 else None
+        ev = _fde(repo, stubs={'setdefault'}, stub=stub2)
+        ev.constructors = {'PartialChild': mk, 'EvalContext.PartialChild': mk}
+        ev.extcalls = {'EvalContext.PartialChild': mk}
+        ctx = Obj('ctx', 'EvalContext')
+        sub = node_obj('cfg.k', 'ConfigDict')
+        me = Obj('pc', 'EvalContext.PartialChild', _path=['a'], _eval_ctx=ctx, _cfgobj={'k': sub})
+        try:
+            r = ev.call(repo.func(q2), me, 'k')
+        except Unsupported as e:
+            raise AnalysisError('%s: finite-domain evaluator refused: %s' % (q2, e))
+        if r.raised or len(made) != 1 or made[0][0] != (('a', 'k'), 'ctx', 'cfg.k') or made[0][1]:
+            bad.append('get_or_set(key): the holder for the nested container is built from %s; expected (<own path> + [key], the context, the config node of the key) - a holder that carries another path evaluates / re-checks its entries under the wrong paths' % (made[0][0] if made else r.raised or 'nothing',))
+        elif sets != [('setdefault', 'pc', ('k', 'holder'))] or getattr(r.ret, 'name', None) != 'holder':
+            bad.append('get_or_set(key): the holder is not registered under the key with setdefault and returned (%s)' % (sets,))
     if bad:
-        run.violation(rule, fi, 'PartialChild.__getitem__', '; '.join(bad[:2]))
+        run.violation(rule, fi, 'PartialChild.__getitem__ / get_or_set', '; '.join(bad[:2]))
     else:
-        run.ok(rule, fi, 'PartialChild.__getitem__ evaluated on 4 rows', 'absent -> evaluate_node(cfg[key], path + [key]); present -> stored value, re-checked in strict mode')
+        run.ok(rule, fi, 'PartialChild.__getitem__ evaluated on 4 rows, get_or_set on 1', 'absent -> evaluate_node(cfg[key], path + [key]); present -> stored value, re-checked in strict mode; nested holders carry path + [key]')
 
 
 def strict_block_errors(repo, run, rule):
